@@ -80,6 +80,15 @@ CLAIMED = {
                "from a 6-symbol alphabet (shared prefixes, '0' vs 0), as resources, named windows and absorbed "
                "anonymous windows, incl. adds failing for non-name reasons; accepted <=> no prefix conflict.",
                "DESIGN.md section 4 C18"),
+    "C14": _e1("csr.EventMonitor with everything beneath, attached directly, through csr.Decoder.add and through "
+               "wiring.connect to an initiator interface; from an arbitrary state: enable write/read-back, line = "
+               "enable-and-pending with an atomic multi-chunk snapshot, pending read / write-one-to-clear / read against "
+               "the fold of trg | (P & ~clr) with triggers derived from the source input lines every cycle; reset values.",
+               "DESIGN.md section 4 C14"),
+    "C16": _e1("gpio.Peripheral with the whole CSR stack beneath it; from an arbitrary state: Mode+Output writes then the "
+               "documented o/oe/alt_mode table for all pins jointly, Output+SetClr writes then read-back per 2-bit code, "
+               "Input read = pin levels delayed by exactly input_stages cycles with pin inputs free in every cycle.",
+               "DESIGN.md section 4 C16"),
     "C15": _e1("Exact one-step functions for ack, read data and the whole memory array (array is part of the free "
                "state), plus the construction-time image from reset: read-your-writes over all histories.",
                "DESIGN.md section 4 C15"),
